@@ -47,10 +47,10 @@ DEPTH_DOC = {
 MUTS = {
     "tree": ["annot_value_edit", "node_annot_value_edit", "edge_via_map", "edge_length", "node_label", "tree_label", "annot_add", "annot_drop", "annot_change", "node_annot_add", "comment",
              "encode", "attr", "reroot", "prune", "collapse", "add_child", "rotate", "relabel_taxon", "ns_add", "edge_annot_add", "is_rooted",
-             "replace_taxon", "recopy", "recopy"],
+             "replace_taxon", "recopy", "recopy", "copy_of_copy"],
     "treelist": ["annot_value_edit", "edge_length", "node_label", "list_label", "append", "remove", "annot_add", "reroot", "prune", "relabel_taxon", "ns_add",
-                 "tree_annot_add", "comment", "replace_taxon", "recopy"],
-    "matrix": ["annot_value_edit", "column_label", "cell_annot", "set_cell", "append_cell", "del_sequence", "new_sequence", "mat_label", "annot_add", "relabel_taxon", "ns_add", "seq_annot"],
+                 "tree_annot_add", "comment", "replace_taxon", "recopy", "copy_of_copy"],
+    "matrix": ["annot_value_edit", "column_label", "cell_annot", "set_cell", "append_cell", "del_sequence", "new_sequence", "mat_label", "annot_add", "relabel_taxon", "ns_add", "seq_annot", "copy_of_copy"],
     "namespace": ["annot_value_edit", "add_taxon", "remove_taxon", "relabel_taxon", "sort", "ns_label", "annot_add", "taxon_annot"],
 }
 SHARED_TOUCHING = set(["relabel_taxon", "ns_add", "taxon_annot", "add_taxon", "remove_taxon", "sort", "ns_label", "replace_taxon"])
@@ -249,6 +249,38 @@ class C12(Machine):
             rec.step_index = i
             rec.steps += 1
             m = st["m"]
+            if m == "copy_of_copy":
+                # the copy is an object like any other: copying it (same route, or a deep copy) works and gives an equal object
+                if depth not in ("deep", "ns", "other_ns"):
+                    continue
+                cns = ns2 if ns2 is not None else ns
+                try:
+                    if st.get("k", 0) % 2:
+                        cc, cns2 = _copy.deepcopy(cp), None
+                    else:
+                        cc, cns2 = self._copy(cfg, cp, cns)
+                except Exception as e:
+                    import traceback
+                    fn = [f.name for f in traceback.extract_tb(e.__traceback__) if "dendropy" in f.filename]
+                    rec.violation("COPY_FAILED", dict(base, exception=type(e).__name__, function=fn[-1] if fn else "harness", where="copy_of_copy"),
+                                  "copying the copy (made by %s) of a %s raised %s: %s" % (route, kind, type(e).__name__, e))
+                    return
+                if cc is None or cc is cp:
+                    rec.violation("NOT_A_COPY", dict(base, where="copy_of_copy"), "copy of the copy is %s" % ("None" if cc is None else "the copy itself"))
+                    return
+                if cfg["bound"] and kind in ("tree", "matrix"):
+                    keep = cp.label
+                    cc.label = "copy-of-copy"
+                    a = cc.annotations.find(name="label")
+                    sa = cp.annotations.find(name="label")
+                    if a is None or a.value != "copy-of-copy" or sa is None or sa.value != keep:
+                        rec.violation("BOUND_ATTRIBUTE", dict(base, where="copy_of_copy"),
+                                      "attribute-bound annotation on the copy of the copy reports %r, on the copy %r (label %r)" % (
+                                          a.value if a is not None else None, sa.value if sa is not None else None, keep))
+                        return
+                rec.probe("copy_of_copy")
+                names.append(("cp", "copy_of_copy"))
+                continue
             if m == "recopy" and depth == "extract":
                 continue        # extraction restructures (suppresses unifurcations): only the pristine tree is compared
             if m == "recopy":
